@@ -3,62 +3,89 @@ package main
 // Rules of C14 added after the rounds of independently authored breaking changes (DESIGN 11.6, 11.7).
 
 import (
+	"go/token"
+	"strings"
+
 	"golang.org/x/tools/go/ssa"
 )
 
-func runC14E1(c *Ctx) {
-	f := c.fn("registry/consul", "parseURLPrefixTag")
-	if !c.need("C14.E1", f, "registry/consul.parseURLPrefixTag") {
-		return
-	}
-	expands := func(fn *ssa.Function) bool {
-		if fn == nil {
-			return false
-		}
-		hit := false
-		eachInstr(fn, func(i ssa.Instruction) {
-			if cc := callCommon(i); cc != nil && calleeName(cc) == "os.Expand" {
-				hit = true
-			}
-		})
-		return hit
-	}
-	isExpand := func(v ssa.Value) bool {
-		call, ok := v.(*ssa.Call)
-		if !ok {
-			return false
-		}
-		if calleeName(&call.Call) == "os.Expand" || calleeName(&call.Call) == "os.ExpandEnv" {
-			return true
-		}
-		if sc := call.Call.StaticCallee(); sc != nil && expands(sc) {
-			return true
-		}
-		if mc, ok := call.Call.Value.(*ssa.MakeClosure); ok {
-			if fn, ok := mc.Fn.(*ssa.Function); ok && expands(fn) {
-				return true
-			}
-		}
+// c14isExpand: the value is the result of an environment expansion.
+func c14isExpand(v ssa.Value) bool {
+	call, ok := v.(*ssa.Call)
+	if !ok {
 		return false
 	}
-	nRet, nExp := 0, 0
-	eachInstr(f, func(i ssa.Instruction) {
-		if v, ok := i.(ssa.Value); ok && isExpand(v) {
-			nExp++
+	n := calleeName(&call.Call)
+	if n == "os.Expand" || n == "os.ExpandEnv" {
+		return true
+	}
+	// a repository wrapper (named function, method or closure) around os.Expand
+	for _, g := range c14callees(&call.Call) {
+		if g != nil && isRepoFn(g) && len(g.Blocks) > 0 && fnCalls(g, "os.Expand", "os.ExpandEnv") {
+			return true
 		}
-		r, ok := i.(*ssa.Return)
-		if !ok || len(r.Results) != 3 {
-			return
-		}
-		if k, isK := constString(r.Results[1]); isK && k == "" {
-			return
-		}
-		nRet++
-		c.check("C14.E1", "registry/consul.parseURLPrefixTag|options returned verbatim", r.Pos(), !derives(r.Results[1], isExpand),
-			"the option part of a tag is returned after os.Expand: only ${DC} is defined there, so the documented redirect variables ($path, $host) and any other '$' in an option value are silently erased — the command still parses but no longer denotes the registered destination/options")
-	})
-	c.atLeast("C14.E1", "returns of parseURLPrefixTag carrying options", nRet, 1)
-	c.atLeast("C14.E1", "expansion sites in parseURLPrefixTag (scope check)", nExp, 1)
+	}
+	return false
 }
 
-// ---- C16.H1: the destination host of a gRPC call comes from the dsthost metadata only ------------------------
+var c14optionWords = []string{"proto=", "weight=", "redirect="}
+
+func c14isOptionWord(v ssa.Value) bool {
+	s, ok := constString(v)
+	if !ok {
+		return false
+	}
+	for _, w := range c14optionWords {
+		if strings.HasPrefix(s, w) {
+			return true
+		}
+	}
+	return false
+}
+
+// runC14E1: the option words of a routing tag reach the generator verbatim. The option text is identified by its
+// role: the values the generator compares with proto=.. or tests for the prefixes weight= / redirect=; their backward
+// slice (result-index and field sensitive, so that the route part of the same tag may be expanded) must not contain an
+// environment expansion.
+func runC14E1(st *c14state) {
+	c := st.c
+	type site struct {
+		in  ssa.Instruction
+		val ssa.Value
+	}
+	var sites []site
+	eachInstrOf(st.ownerFns(), func(_ *ssa.Function, i ssa.Instruction) {
+		switch x := i.(type) {
+		case *ssa.BinOp:
+			if x.Op != token.EQL && x.Op != token.NEQ {
+				return
+			}
+			switch {
+			case c14isOptionWord(x.Y):
+				sites = append(sites, site{x, x.X})
+			case c14isOptionWord(x.X):
+				sites = append(sites, site{x, x.Y})
+			}
+		case *ssa.Call:
+			n := calleeName(&x.Call)
+			if (n == "strings.HasPrefix" || n == "strings.CutPrefix" || n == "strings.TrimPrefix") && len(x.Call.Args) == 2 && c14isOptionWord(x.Call.Args[1]) {
+				sites = append(sites, site{x, x.Call.Args[0]})
+			}
+		}
+	})
+	for _, s := range sites {
+		c.check("C14.E1", fnKey(s.in.Parent())+"|options used verbatim", s.in.Pos(), !c14derives(s.val, c14isExpand),
+			"the option part of a tag passes through os.Expand before the generator reads it: only ${DC} is defined there, so the documented redirect variables ($path, $host) and any other '$' in an option value are silently erased - the command still parses but no longer denotes the registered destination/options")
+	}
+	c.atLeast("C14.E1", "places where the generator recognises an option word (proto=, weight=, redirect=)", len(sites), 1)
+	// scope check: the expansion of the route part is visible to this analysis
+	nExp := 0
+	for _, s := range st.sinks {
+		c14slice(s.val, func(x ssa.Value) {
+			if c14isExpand(x) {
+				nExp++
+			}
+		})
+	}
+	c.atLeast("C14.E1", "environment expansions in the slice of a command (scope check)", nExp, 1)
+}
